@@ -17,6 +17,10 @@ pub struct Case {
     pub decision: Decision,
     pub dseed: u64,
     pub picks: Vec<(usize, usize)>,
+    /// thread count of the additional multi-threaded runs (0 = none)
+    pub threads: usize,
+    /// which huge budget the additional run uses
+    pub huge: u64,
 }
 
 pub fn decode(bytes: &[u8]) -> Case {
@@ -34,6 +38,8 @@ pub fn decode(bytes: &[u8]) -> Case {
     let dseed = s.u32() as u64;
     let npicks = 3 + s.below(6);
     let picks = (0..npicks).map(|_| (s.below(7), s.below(30))).collect();
+    let threads = if s.bool() { 2 + s.below(7) } else { 0 };
+    let huge = [u64::MAX, u64::MAX - 1, 1 << 63, (1 << 32) + 1, 1_000_000_007][s.below(5)];
     Case {
         built,
         method,
@@ -43,6 +49,8 @@ pub fn decode(bytes: &[u8]) -> Case {
         decision,
         dseed,
         picks,
+        threads,
+        huge,
     }
 }
 
@@ -73,17 +81,18 @@ pub fn check(bytes: &[u8], _ctx: &Ctx) -> Verdict {
     };
     let info = &case.built.info;
     let n = case.budget;
-    let run = |t: u64, r: f64| -> Result<Out, Verdict> {
+    let run_k = |t: u64, r: f64, threads: usize| -> Result<Out, Verdict> {
         let rec = Recorder::new(if case.method == Method::Full {
             Mode::Observe
         } else {
             Mode::Decide(case.decision.clone(), case.dseed)
         });
-        let res = glue::solve_hooked(&game, &rec, case.method, t, r, 1, Some(glue::lib_params(&case.params)));
+        let res = glue::solve_hooked(&game, &rec, case.method, t, r, threads, Some(glue::lib_params(&case.params)));
         let solved = glue::unpack(info, res).map_err(|m| Verdict::fail("C09/invalid-result", m))?;
         let last_pass = rec.draws().iter().map(|d| d.pass).max().unwrap_or(0);
         Ok(Out { solved, last_pass })
     };
+    let run = |t: u64, r: f64| run_k(t, r, 1);
     let mut prefix = Vec::new();
     for t in 1..=n {
         match run(t, 0.0) {
@@ -152,6 +161,84 @@ pub fn check(bytes: &[u8], _ctx: &Ctx) -> Verdict {
             }
         }
     }
+    // a budget far beyond the stopping iteration must not matter ("the budget is never exceeded",
+    // and u64::MAX is what the documentation recommends together with a threshold)
+    {
+        // a threshold that some prefix run undercuts: between the smallest bound and the next one
+        let mut sorted: Vec<f64> = bounds.iter().copied().filter(|b| b.is_finite()).collect();
+        sorted.sort_by(|a, b| a.partial_cmp(b).unwrap());
+        sorted.dedup();
+        let r = match sorted.len() {
+            0 => f64::INFINITY,
+            1 => next_up(sorted[0]),
+            _ => [f64::INFINITY, next_up(sorted[0]), sorted[sorted.len() / 2], sorted[sorted.len() - 1]][case.picks[0].1 % 4],
+        };
+        if let Some(i) = bounds.iter().position(|b| *b < r) {
+            let got = match run(case.huge, r) {
+                Ok(o) => o,
+                Err(v) => return v,
+            };
+            let want = &prefix[i];
+            if got.solved.prof != want.solved.prof || got.solved.bounds != want.solved.bounds {
+                return Verdict::fail(
+                    "C09/wrong-stop/huge-budget",
+                    format!(
+                        "{} {:?} budget {} threshold {}: bounds along the run {:?}; expected the result of budget {} (bounds {:?}), got bounds {:?}",
+                        method_name(case.method), case.params, case.huge, r, bounds, i + 1, want.solved.bounds, got.solved.bounds
+                    ),
+                );
+            }
+            labels.push("huge-budget");
+        }
+    }
+    // several threads: same stopping rule (compared within tolerance, thresholds away from every bound)
+    if case.threads >= 2 {
+        let prep = match prepare("C09", &case.built, &game) {
+            Ok(p) => p,
+            Err(v) => return v,
+        };
+        let guard = reference_guard(&prep, case.method, case.params, n, &case.decision, case.dseed, false, crate::refcfr::TieRule::LastMaxFirstMin);
+        let robust = matches!(&guard, Ok(g) if g.t_eff == n && g.result.tie_used_at.is_none());
+        if robust {
+            let mut thresholds: Vec<(f64, &'static str)> = vec![(0.0, "zero"), (-1.0, "negative"), (f64::NAN, "nan"), (f64::INFINITY, "plus-inf")];
+            let mut sorted: Vec<f64> = bounds.iter().copied().filter(|b| b.is_finite() && *b > 0.0).collect();
+            sorted.sort_by(|a, b| a.partial_cmp(b).unwrap());
+            sorted.dedup();
+            for w in sorted.windows(2) {
+                if w[1] > w[0] * (1.0 + 1e-4) {
+                    thresholds.push(((w[0] + w[1]) / 2.0, "between-two-bounds"));
+                }
+            }
+            let pick = case.picks.iter().map(|(a, b)| a + b).sum::<usize>();
+            for j in 0..2 {
+                let (r, rname) = thresholds[(pick + j * 5) % thresholds.len()];
+                let tstar = bounds.iter().position(|b| *b < r).map(|i| i as u64 + 1).unwrap_or(n);
+                let got = match run_k(n, r, case.threads) {
+                    Ok(o) => o,
+                    Err(v) => return v,
+                };
+                let want = &prefix[tstar as usize - 1];
+                let (d, at) = max_diff(&want.solved.prof, &got.solved.prof);
+                let scale = want.solved.total_bound.abs().max(1e-300);
+                let bound_off = (0..2).any(|p| {
+                    let (a, b) = (want.solved.bounds[p], got.solved.bounds[p]);
+                    !(a == b || (a - b).abs() <= 1e-6 * scale.max(a.abs()))
+                });
+                if d > 1e-6 || bound_off {
+                    return Verdict::fail(
+                        format!("C09/wrong-stop/threads/{}", rname),
+                        format!(
+                            "{} {:?} budget {} threshold {} with {} threads: expected the one-thread result of budget {} (bounds {:?}), got bounds {:?}, strategies differ by {} at {}; bounds along the run {:?}",
+                            method_name(case.method), case.params, n, r, case.threads, tstar, want.solved.bounds, got.solved.bounds, d, at, bounds
+                        ),
+                    );
+                }
+                labels.push("several-threads");
+            }
+        } else {
+            labels.push("several-threads-skipped-by-guard");
+        }
+    }
     Verdict::Pass {
         nontrivial: if nontrivial {
             Some(hash_bytes(format!("{}|{:?}|{:?}|{}|{:?}", case.built.tree.brief(), case.method, case.params, n, case.picks).as_bytes()))
@@ -166,7 +253,7 @@ pub fn describe(bytes: &[u8]) -> Value {
     let c = decode(bytes);
     json!({
         "family": c.built.family, "game": c.built.tree.brief(), "method": method_name(c.method),
-        "params": format!("{:?}", c.params), "budget": c.budget, "threshold_picks": format!("{:?}", c.picks),
+        "params": format!("{:?}", c.params), "budget": c.budget, "threshold_picks": format!("{:?}", c.picks), "extra_threads": c.threads, "huge_budget": c.huge,
         "decision": format!("{:?}", c.decision),
     })
 }
@@ -176,10 +263,10 @@ pub fn prop() -> Prop {
         id: "C09",
         check,
         describe,
-        rule: "small generated games x {Full, Sampled, External} (sampled ones under a pure decision function, so single-threaded runs are bit-deterministic) x parameters (half vanilla) x budget N in 1..30 x 3-8 thresholds from {0, -1, NaN, +inf, b_t, next_up(b_t), next_down(b_t)} where b_t are the total bounds of the prefix runs solve(m, t, 0); oracle: solve(m, N, r) equals bitwise the prefix run with budget t* = first t with b_t < r (N if none); the returned bound is < r iff t* < N; no draw after the last pass of t*. Non-trivial = 1 <= t* < N with the neighbouring prefix results distinct; distinct by (tree, method, parameters, N, thresholds).",
+        rule: "small generated games x {Full, Sampled, External} (sampled ones under a pure decision function, so single-threaded runs are bit-deterministic) x parameters (half vanilla) x budget N in 1..30 x 3-8 thresholds from {0, -1, NaN, +inf, b_t, next_up(b_t), next_down(b_t)} where b_t are the total bounds of the prefix runs solve(m, t, 0); oracle: solve(m, N, r) equals bitwise the prefix run with budget t* = first t with b_t < r (N if none); the returned bound is < r iff t* < N; no draw after the last pass of t*; one more run with a huge budget (u64::MAX, u64::MAX-1, 2^63, ...) and a threshold some prefix undercuts must equal that prefix bitwise; in half the cases two more runs with 2..8 threads and thresholds from {0, -1, NaN, +inf, mid-points between distinct bounds} must equal the one-thread prefix run within 1e-6 (only when the reference model's conditioning guard admits all N iterations). Non-trivial = 1 <= t* < N with the neighbouring prefix results distinct; distinct by (tree, method, parameters, N, thresholds).",
         max_len: 600,
-        cases_quick: 6_000,
-        cases_thorough: 150_000,
+        cases_quick: 30_000,
+        cases_thorough: 500_000,
         assumptions: &["single-threaded runs under hook-fixed decisions are deterministic (checked in every case)"],
         post: None,
         watchdog_s: 60,
